@@ -72,6 +72,10 @@ def check(ctx):
                                                           'binding')
         if defs:
             src = defs[0].value
+    else:
+        ctx.ob('C07.1', func, scan, True,
+               'the victim list is computed where it is walked',
+               construct='victim list binding')
     stxt = N.txt(src)
     ok = stxt in ('%s[::-1]' % queue, 'reversed(%s)' % queue,
                   'list(reversed(%s))' % queue)
@@ -264,7 +268,7 @@ def check(ctx):
                'after a failed lease renewal')
     # renewal attempted only when requested
     rtests = [n for n in body if n.kind == 'test' and
-              '.renew(' in N.txt(n.ast)]
+              '.renew(' in K.test_text(func, n)]
     for rtest in rtests:
         ok = K.guarded_by(graph, rtest, lambda e: K.truth_edge(
             nz, e, '%s.renew' % var, True), start=head)
